@@ -174,7 +174,10 @@ func concTs(class string, now time.Time, avoid int64, r *rand.Rand) (string, str
 	case "m501":
 		return pick(n - 301 - int64(r.Intn(3)))
 	case "old":
-		return pick([]int64{n - 3600, n - 86400*400, 0, -5, 1, n - 302 - int64(r.Intn(5000)), -62135596800, n - 1000000000}[r.Intn(8)])
+		// incl. ages beyond what a time.Duration can hold (about 292 years): arithmetic that wraps round must not make them fresh
+		return pick([]int64{n - 3600, n - 86400*400, 0, -5, 1, n - 302 - int64(r.Intn(5000)), -62135596800, n - 1000000000,
+			-10000000000, n - 300*31557600, n - 500*31557600, n - 293*31557600 - int64(r.Intn(1000000000)), n - 9223372036, n - 9223372037 - int64(r.Intn(100000)),
+			-9223372036854775807, n - 2*9223372036 - int64(r.Intn(1000))}[r.Intn(16)])
 	case "future":
 		return pick([]int64{n + 60, n + 3600, n + 86400*3650, 9999999999, n + 301}[r.Intn(5)])
 	case "nonnum":
